@@ -6,6 +6,7 @@
 -/
 import LccModel.Model.RunAccept
 import LccModel.Model.RunOutcome
+import LccModel.Model.ProjectRun
 import LccModel.Generated.C11Tables
 
 namespace LccModel.Generated.C11
@@ -27,6 +28,12 @@ theorem skip_table_agrees : ∀ r ∈ skipTable, eval r.1 = r.2 := by decide +ke
     `Props/C11Events.lean` (`fire_never_blocks`, `close_never_blocks`, …) assume: `init none` -/
 theorem em_queue_is_unbounded : ∀ r ∈ emQueueBound, r.2 = 0 := by decide
 
+/-- the exit of the real `handle_events` waits for the handler thread WITHOUT a wall-clock limit (`thread.join()`: timeout 0 =
+    none, the thread is joined) and no queue operation has a timeout (read under the time shim of harness/props/_em.py), which
+    is what `Props/C11Events.lean` (`after_close`, `after_close_nothing_lost`, `handler_thread_ended_after_close`) assume:
+    `EM.close = EM.closeWithin none` (`closeWithin_none`); `limited_join_can_lose_a_failure` shows it is necessary -/
+theorem em_join_is_unlimited : ∀ r ∈ emJoinLimit, r.2 = 0 := by decide
+
 /-- Third table: the REAL `run_suites` executed on a small project with / without a reporting-backend failure and
     with / without a keyboard interrupt (delivered before or after the failure); what the caller saw (returned
     verdict, or the class of the raised error and whether it carries the backend's text) equals
@@ -46,5 +53,22 @@ def evalOutcome (r : Bool × Bool × Bool × String) : String :=
   | _ => o.name
 
 theorem run_outcome_table_agrees : ∀ r ∈ runOutcomeTable, evalOutcome r.1 = r.2 := by decide
+
+/-- Fourth table: the REAL `PreparedProject.run` (the entry point of `lcc run`) executed with every kind of pre_run hook x every
+    kind of post_run hook (not overridden, passing, raising UserError, raising another exception, raising only when the run
+    failed) x a reporting backend failing or not: the hook calls in order and what the caller saw equal `ProjectRun.run` on the
+    outcome `RunOutcome.outcome` gives for the facts of that run.  Row: ((pre, post, backend failed), "calls => outcome"). -/
+def evalProject (r : String × String × Bool) : String :=
+  let (pre, post, failed) := r
+  let o := RunOutcome.outcome { interrupted := false, taskException := false,
+                                pending := if failed then some "T" else none, successful := true }
+  ProjectRun.render (ProjectRun.run (ProjectRun.Hook.ofName pre) (ProjectRun.Hook.ofName post) o)
+
+theorem project_run_table_agrees : ∀ r ∈ projectRunTable, evalProject r.1 = r.2 := by decide
+
+/-- the table covers every combination of hook kinds, with and without a backend failure, that lets the run start -/
+theorem project_run_table_complete :
+    ∀ pre ∈ ["none", "pass"], ∀ post ∈ ["none", "pass", "user", "other", "user-if-failed", "other-if-failed"], ∀ failed ∈ [true, false],
+      (projectRunTable.map (·.1)).contains (pre, post, failed) = true := by decide
 
 end LccModel.Generated.C11
